@@ -15,6 +15,7 @@ import (
 	"sort"
 	"strings"
 	"sync"
+	"time"
 
 	"github.com/33cn/chain33/common/address"
 	clog "github.com/33cn/chain33/common/log"
@@ -104,7 +105,7 @@ func run(c *lib.Ctx) {
 		idx = append(idx, i)
 	}
 	if len(idx) > 0 {
-		res := c.Child("ethdefault", childIn{Seed: c.Seed, Thor: !c.Quick(), Indices: idx}, lib.ChildOpts{})
+		res := c.Child("ethdefault", childIn{Seed: c.Seed, Thor: !c.Quick(), Indices: idx}, lib.ChildOpts{Timeout: 45 * time.Minute})
 		var rs []*seqResult
 		if res.Died || res.TimedOut || json.Unmarshal(res.Out, &rs) != nil {
 			c.Inconclusive("eth-default child failed: exit=%d timeout=%v stderr=%s", res.ExitCode, res.TimedOut, lib.ShortList(strings.Split(res.Stderr, "\n"), 12))
